@@ -62,7 +62,7 @@ def value_oracle(box, expected, N_expected, M_expected, eps, what):
             return "dense shape %s vs %s" % (list(got.shape), list(exp.shape))
         err = float(tn.linalg.norm((got - exp).reshape(-1)))
         nrm = float(tn.linalg.norm(exp.reshape(-1)))
-        if err > CONST * eps * nrm + 1e3 * 2.3e-16 * nrm + 1e-12:
+        if err > CONST * eps * nrm + 1e3 * 2.3e-16 * nrm + (1e-12 if nrm == 0 else 0.0):
             return "%s: error %.3g exceeds %g*eps*norm = %.3g (eps=%g)" % (what, err, CONST, CONST * eps * nrm, eps)
         return None
     return oracle
@@ -89,6 +89,9 @@ def build(rng, tier, rec):
                 if dt == tn.complex128:
                     x = torchtt.TT([c * complex(rng.choice([1, -1]), rng.choice([0, 1, -1])) for c in x.cores])
             eps = rng.choice(epss)
+            sc = rng.choice([1.0, 1.0, 1.0, 2.0 ** -30, 2.0 ** 20])
+            if sc != 1.0:
+                x = torchtt.TT([c * (sc if k == 0 else 1.0) for k, c in enumerate(x.cores)])
             dx = dense_of(x)
             box = {}
 
@@ -145,11 +148,15 @@ def build(rng, tier, rec):
             ttm = rng.random() < 0.3 and d <= 3
             M = rand_modes(rng, d, 1, 3, distinct=False) if ttm else None
             x = rand_tt(rng, N, rand_ranks(rng, d, 3), dt, M=M)
+            # overall scale far from 1 (powers of two keep the integer data exact): tolerances must be RELATIVE to the norm
+            sc = rng.choice([1.0, 1.0, 2.0 ** -30, 2.0 ** -20, 2.0 ** 20])
+            if sc != 1.0:
+                x = torchtt.TT([c * (sc if k == 0 else 1.0) for k, c in enumerate(x.cores)])
             dx = dense_of(x)
             eps = rng.choice([1e-12, 1e-8, 1e-3, 1e-1])
             box = {}
 
-            def impl(x=x, p=p, eps=eps, box=box):
+            def impl(x=x, p=p, eps=eps, box=box, d=d):
                 rec.active = True
                 c0 = len(rec.calls)
                 try:
@@ -157,15 +164,32 @@ def build(rng, tier, rec):
                 finally:
                     rec.active = False
                 box["nchop"] = len(rec.calls) - c0
+                # per-swap allowance actually used, relative to the norm of the spectrum it was applied to
+                worst = 0.0
+                for (s_, e_, r_) in rec.calls[c0:]:
+                    ns = float(np.linalg.norm(s_))
+                    if ns > 0:
+                        worst = max(worst, e_ / ns)
+                box["allow"] = worst
                 return "ok"
             TIES.append(("permute", J("permuteorder", d, list(p)), box, (list(N), list(p))))
+            def with_allow(orc, box=box, eps=eps, d=d):
+                def o():
+                    r = orc()
+                    if r:
+                        return r
+                    lim = eps / (d ** 1.5)
+                    if box.get("allow", 0.0) > lim * (1 + 1e-6):
+                        return "a swap truncated with relative allowance %.3g > eps/d^1.5 = %.3g (allowance must be relative to the norm)" % (box["allow"], lim)
+                    return None
+                return o
             if ttm:
                 exp = lambda dx=dx, p=p, d=d: dx.permute(list(p) + [q + d for q in p])
-                cases.append(Case(None, impl, value_oracle(box, exp, [N[q] for q in p], [M[q] for q in p], eps, "permute(operator)"), "permute/ttm/d%d" % d, list(p) != list(range(d)),
+                cases.append(Case(None, impl, with_allow(value_oracle(box, exp, [N[q] for q in p], [M[q] for q in p], eps, "permute(operator)")), "permute/ttm/d%d" % d, list(p) != list(range(d)),
                                   desc="permute operator M=%s N=%s dims=%s eps=%g" % (M, N, p, eps)))
             else:
                 exp = lambda dx=dx, p=p: dx.permute(list(p))
-                cases.append(Case(None, impl, value_oracle(box, exp, [N[q] for q in p], None, eps, "permute"), "permute/tt/d%d" % d, list(p) != list(range(d)),
+                cases.append(Case(None, impl, with_allow(value_oracle(box, exp, [N[q] for q in p], None, eps, "permute")), "permute/tt/d%d" % d, list(p) != list(range(d)),
                                   desc="permute N=%s dims=%s eps=%g" % (N, p, eps)))
     # QTT
     for _ in range(6 if tier == "quick" else 40):
